@@ -137,10 +137,10 @@ theorem trunc_unique (f : Nat) (a x : Int) (hx : IsTrunc f a x) : x = truncE f a
   THE number the documentation's sentence describes. -/
 theorem holds_by_sentence (L : Layout) (hv : L.valid) (a : Int) (ha : inRange L a) (m : RMode) (e : Int) (he : IsRounding L.f m a e) :
     L.overflowingR m a = L.ovf e ∧ L.checkedR m a = .ok (L.chk e) false ∧ L.saturatingR m a = .ok (L.clamp e) false ∧
-    L.wrappingR m a = .ok (L.wrap e) false := by
+    L.wrappingR m a = .ok (L.wrap e) false ∧ L.plainR m a = .ok (L.wrap e) (!decide (inRange L e)) := by
   rw [rounding_unique L.f m a e he]
-  obtain ⟨h1, h2, h3, h4, _⟩ := (holds L hv a ha).1 m
-  exact ⟨h1, h2, h3, h4⟩
+  obtain ⟨h1, h2, h3, h4, h5⟩ := (holds L hv a ha).1 m
+  exact ⟨h1, h2, h3, h4, h5⟩
 
 /-- `round_to_zero` against its sentence (it cannot overflow, so there is one form) -/
 theorem trunc_by_sentence (L : Layout) (hv : L.valid) (a : Int) (ha : inRange L a) (e : Int) (he : IsTrunc L.f a e) :
